@@ -181,6 +181,38 @@ def provenance_rule(ctx, rule="R07.8"):
         ctx.check(par_ok, rule, site, "the remembered variance object is replaced only when the kriging results were recomputed", "provenance-guard")
 
 
+RESULT_NEUTRAL_KRIGE_ARGS = {"chunk_size": "only splits the target points into chunks; the results are the same"}
+
+
+def call_inputs_rule(ctx, rule="R07.9"):
+    """Every argument of Krige.__call__ that the caller of CondSRF.__call__ can still set through **kwargs and that changes the kriging
+    results must keep the reuse branch from being taken (the cached results were computed with the previous value)."""
+    prog = ctx.prog
+    fn = prog.func(CS, "CondSRF.__call__")
+    site = CS + "::CondSRF.__call__"
+    kc = prog.func("krige/base.py", "Krige.__call__")
+    params = [a.arg for a in kc.args.args[1:]] + [a.arg for a in kc.args.kwonlyargs]
+    forced = set()
+    for st in fn.body:
+        if isinstance(st, ast.Assign) and isinstance(st.targets[0], ast.Subscript) and ast.unparse(st.targets[0].value) == "kwargs" and isinstance(st.targets[0].slice, ast.Constant):
+            forced.add(st.targets[0].slice.value)
+    reuse_if = [s for s in fn.body if isinstance(s, ast.If) and any(norm_stmt(x) == "reuse = True" for x in s.body)]
+    if len(reuse_if) != 1:
+        raise AnalysisError("anchor vanished: reuse branch in CondSRF.__call__")
+    test_txt = ast.unparse(reuse_if[0].test)
+    own = {a.arg for a in fn.args.args} | {a.arg for a in fn.args.kwonlyargs}
+    n = 0
+    for p_ in params:
+        if p_ in forced or p_ in RESULT_NEUTRAL_KRIGE_ARGS:
+            continue
+        if p_ in ("pos", "mesh_type") and p_ in own:
+            continue  # handled through pre_pos / info['deleted'] (R07.2)
+        n += 1
+        ok = ("kwargs.get('%s')" % p_) in test_txt or ("'%s' in kwargs" % p_) in test_txt or ("'%s' not in kwargs" % p_) in test_txt
+        ctx.check(ok, rule, site, "kriging input `%s` can be passed through **kwargs; the reuse test must exclude calls that pass it (test: %s)" % (p_, test_txt[:120]), "call-input:" + p_)
+    ctx.floor(rule, "user-controlled kriging inputs of the call", n, 1)
+
+
 def detector_rule(ctx, rule="R07.3"):
     fn = ctx.prog.func(FB, "_pos_equal")
     tol = sorted({ast.unparse(n.func) for n in ast.walk(fn) if isinstance(n, ast.Call) and ast.unparse(n.func) in ("np.allclose", "np.isclose")})
@@ -255,6 +287,7 @@ def run(ctx):
     writer_rule(ctx)
     reuse_rule(ctx)
     provenance_rule(ctx)
+    call_inputs_rule(ctx)
     detector_rule(ctx)
     from .C11 import update_before_generate
 
